@@ -22,3 +22,16 @@ Check C18_missing_recognised :
   is_missing (EBase resolve_ref_free_err) = true /\
   is_missing (EBase resolve_ref_invalid_err) = true /\
   is_missing (if resolve_ref_get_in_try then ETry (EBase xref_get_none_err) else EBase xref_get_none_err) = true.
+Check C18_element_skipped : forall SC H allow E f chain t i g pre post e0,
+  resolving SC t = true -> dangling E i -> chain_has i g chain = false ->
+  read SC H allow E (S f) chain t PNull = TErr e0 ->
+  read SC H allow E (S (S f)) chain (TVec t) (PArr (pre ++ PRef i g :: post))
+  = read SC H allow E (S (S f)) chain (TVec t) (PArr (pre ++ post)).
+Check C18_element_null : forall SC H allow E f chain t i g pre post v0,
+  resolving SC t = true -> dangling E i -> chain_has i g chain = false ->
+  read SC H allow E (S f) chain t PNull = TOk v0 ->
+  read SC H allow E (S (S f)) chain (TVec t) (PArr (pre ++ PRef i g :: post))
+  = read SC H allow E (S (S f)) chain (TVec t) (PArr (pre ++ PNull :: post)).
+Check C18_enums_resolve :
+  forallb (fun i => resolving gen_schemas (TNameEnum (N.of_nat i))) (seq 0 (length (nenums gen_schemas))) = true /\
+  forallb (fun i => resolving gen_schemas (TIntEnum (N.of_nat i))) (seq 0 (length (ienums gen_schemas))) = true.
